@@ -53,6 +53,25 @@ class _EulerBernoulli(_GroupElem):
     Valid for slender beams (L/h ≫ 1).  For stocky beams use _Timoshenko.
     """
 
+    def Get_F_e_pg(self, matrixType: MatrixType) -> FeArray.FeArrayALike:
+        F_e_pg = super().Get_F_e_pg(matrixType)
+        if self.dim == self.inDim and matrixType in (
+            MatrixType.beam,
+            MatrixType.beam_shear,
+        ):
+            # Beam operators differentiate along the member (axis i of the beam).
+            # On a mesh lying on the x axis the generic Jacobian is dx/dξ,
+            # which is negative for elements pointing towards -x.
+            F_e_pg = np.abs(F_e_pg)
+        return F_e_pg
+
+    def _Get_axis_sign_e(self) -> _types.FloatArray:
+        """(Ne, 1, 1) direction (+1 or -1) of the elements along the x axis.\n
+        A 1D structure has the single unknown ux, which is not rotated in the member's axes: d(ux)/dx = sign * d(ux)/ds.
+        """
+        F_e_pg = _GroupElem.Get_F_e_pg(self, MatrixType.beam)
+        return np.sign(np.asarray(F_e_pg)[:, :1, :1, 0])
+
     # Beams shapes functions
     # Use hermitian shape functions
 
@@ -439,7 +458,9 @@ class _EulerBernoulli(_GroupElem):
             idx_ux = np.arange(dof_n * nPe)
 
             B_e_pg = np.zeros((Ne, nPg, 1, dof_n * nPe), dtype=float)
-            B_e_pg[:, :, 0, idx_ux] = dN_e_pg[:, :, 0]
+            B_e_pg[:, :, 0, idx_ux] = (
+                np.asarray(dN_e_pg[:, :, 0]) * self._Get_axis_sign_e()
+            )
 
         elif dim == 2:
             # u = [u1, v1, rz1, . . . , un, vn, rzn]
@@ -663,7 +684,9 @@ class _Timoshenko(_EulerBernoulli):
         if dim == 1:
             idx_ux = idx[:, 0]
             B_e_pg = np.zeros((Ne, nPg, 1, dof_n * nPe), dtype=float)
-            B_e_pg[:, :, 0, idx_ux] = dN_e_pg[:, :, 0]
+            B_e_pg[:, :, 0, idx_ux] = (
+                np.asarray(dN_e_pg[:, :, 0]) * self._Get_axis_sign_e()
+            )
 
         elif dim == 2:
             # u = [u, v, rz] per node
